@@ -6,6 +6,7 @@ graph.  raised(s) comes from the primitive table below (external operations), fr
 Every escaping (function, class) keeps a witness chain of (function, line, text).
 """
 import ast
+import os
 import builtins
 
 from .index import Func, iter_own_nodes, iter_own_stmts
@@ -130,11 +131,11 @@ class Effects:
         self.handler_nodes = {}
         # functions the rule instances were never confirmed against (sa/known_functions.json): their primitive may-raise sites are not
         # propagated (no exemption table entry can exist for them yet); the check reports that as ANALYSIS-ERROR (core/unconfirmed.py)
-        try:
+        unconfirmed = set()
+        if os.environ.get("SA_DROP_UNCONFIRMED"):
+            # second pass of core/unconfirmed.py: which findings disappear when nothing is born in the new functions?
             from .unconfirmed import new_function_keys
             unconfirmed = new_function_keys(self.ix)
-        except Exception:
-            unconfirmed = set()
         dropped = getattr(cg, "_effects_dropped", None)
         if dropped is None:
             dropped = cg._effects_dropped = set()
